@@ -11,7 +11,7 @@ impl Ident { pub fn name(&self) -> (r: &Vec<char>) ensures r@ == self.name@ { &s
 #[verifier::external_body] pub struct Value { x: usize }
 pub uninterp spec fn code_of(v: &Value) -> Option<Seq<CompiledItem>>;
 impl Value { #[verifier::external_body] pub fn compile(&self, state: &CompilationState) -> (r: Result<Vec<CompiledItem>, VErr>) ensures r is Ok <==> code_of(self) is Some, r is Ok ==> r->Ok_0@ == code_of(self)->Some_0 { unimplemented!() } }
-pub struct ReturnStatement(pub Option<Value>);
+pub struct ReturnStatement { pub value: Option<Value>, pub ends_module: bool }
 pub struct PrintStatement(pub Value);
 pub struct Break { pub frames_since_loop: usize }
 pub struct Continue { pub frames_since_loop: usize }
@@ -25,7 +25,7 @@ def build(repo):
     ids = opcode_ids(repo)
     R = [r_instruction(ids), R12_VEC_LITERAL,
          Rule("R13", "matched . append ( & mut $$e ) ;", "{ let mut verif_tail = $$e ; vappend ( & mut matched , & mut verif_tail ) ; }", why="Vec::append"),
-         Rule("R1", "let Some ( ref return_value ) = self . 0 else", "let Some ( return_value ) = & self . 0 else", why="ref binding -> reference to the field")]
+         Rule("R1", "let Some ( ref return_value ) = self . $f else", "let Some ( return_value ) = & self . $f else", why="ref binding -> reference to the field")]
     parts = {}
     for what, rel, within in (("ident", "compiler/src/ast/ident.rs", "impl Compile for Ident"), ("ret", "compiler/src/ast/return.rs", "impl Compile for ReturnStatement"),
                               ("print", "compiler/src/ast/print_statement.rs", "impl Compile for PrintStatement"),
@@ -35,7 +35,7 @@ def build(repo):
         check_closed(b, within)
         parts[what] = render(b, 2)
     gen = header(log, "compiler/src/ast/{ident, return, print_statement, loop_control_flow}.rs: impl Compile for Ident / ReturnStatement / PrintStatement / Continue / Break") \
-        + prelude("compile.rs") + opcode_consts(ids, ["load", "ret", "printn", "void"]) + SPEC + f"""
+        + prelude("compile.rs") + opcode_consts(ids, ["load", "ret", "ret_mod", "printn", "void"]) + SPEC + f"""
 impl Ident {{
     //@ OBL C01.compile.ident
     pub fn compile(&self, state: &CompilationState) -> (r: Result<Vec<CompiledItem>, VErr>)
@@ -48,9 +48,10 @@ impl ReturnStatement {{
     //@ OBL C01.compile.return
     pub fn compile(&self, state: &CompilationState) -> (r: Result<Vec<CompiledItem>, VErr>)
         ensures
-            self.0 is None ==> r is Ok && r->Ok_0@.len() == 1 && is_instr(r->Ok_0@[0], RET) && nargs(r->Ok_0@[0]) == 0,
-            self.0 is Some ==> (r is Ok <==> code_of(&self.0->Some_0) is Some),
-            (self.0 is Some && r is Ok) ==> ({{ let c = code_of(&self.0->Some_0)->Some_0;
+            // a bare `return` leaves a function with `ret`; in the top-level code of a file it hands the module to the importer, as the end of the file does (`ret_mod`)
+            self.value is None ==> r is Ok && r->Ok_0@.len() == 1 && is_instr(r->Ok_0@[0], if self.ends_module {{ RET_MOD }} else {{ RET }}) && nargs(r->Ok_0@[0]) == 0,
+            self.value is Some ==> (r is Ok <==> code_of(&self.value->Some_0) is Some),
+            (self.value is Some && r is Ok) ==> ({{ let c = code_of(&self.value->Some_0)->Some_0;
                 r->Ok_0@.len() == c.len() + 1 && r->Ok_0@.subrange(0, c.len() as int) == c && is_instr(r->Ok_0@[c.len() as int], RET) && nargs(r->Ok_0@[c.len() as int]) == 0 }}),
     {{
 {parts['ret']}
@@ -90,7 +91,7 @@ impl Break {{
 fn main() {{}}
 """
     obls = [Obl("C01.compile.ident", ["C01", "C07"], fn="Ident::compile", desc="a name is read with exactly `load name`"),
-            Obl("C01.compile.return", ["C01", "C09"], fn="ReturnStatement::compile", desc="`return e`: e's code once, then `ret`; `return`: `ret` alone"),
+            Obl("C01.compile.return", ["C01", "C09"], fn="ReturnStatement::compile", desc="`return e`: e's code once, then `ret`; `return`: `ret` alone -- `ret_mod` when it ends the top-level code of a file"),
             Obl("C01.compile.print", ["C01", "C09", "C15"], fn="PrintStatement::compile", desc="`print e`: e's code once, then `printn *`, `void`"),
             Obl("C01.compile.continue", ["C01", "C09"], fn="Continue::compile", desc="`continue`: the Continue placeholder with the number of frames to close"),
             Obl("C01.compile.break", ["C01", "C09"], fn="Break::compile", desc="`break`: the Break placeholder with the number of frames to close")]
